@@ -159,6 +159,17 @@ def r_limit( ctx ):
     post = [ a for a in ast.walk( run ) if isinstance( a, ast.Assert ) and ( pmatch( a.test, 'source.sent <= ending' ) or pmatch( a.test, 'ending >= source.sent' )) ]
     if post:
         res.ok( src, post[0], 'post-run assert source.sent <= ending' )
+        # ... and every normal completion of run() passes it (no early return / fast path around it)
+        cfg = CFG( run, may_raise=lambda n: False )
+        guard = src.parent.get( post[0] )
+        gnode = cfg.node_of( guard ) if isinstance( guard, ast.If ) else cfg.node_of( post[0] )
+        if gnode is not None and isinstance( guard, ast.If ) and ( pmatch( guard.test, 'ending is not None' )) and cfg.must_pass( cfg.entry, cfg.exit, [ gnode ], correlated=False ):
+            res.ok( src, guard, 'every normal completion of state.run reaches the post-run limit assertion' )
+        elif gnode is not None and not isinstance( guard, ast.If ) and cfg.must_pass( cfg.entry, cfg.exit, [ gnode ], correlated=False ):
+            res.ok( src, post[0], 'every normal completion of state.run reaches the post-run limit assertion' )
+        else:
+            early = [ n for n in cfg.nodes if n.kind == 'stmt' and isinstance( n.stmt, ast.Return ) ]
+            res.bad( src, early[0].stmt if early else run, early[0].stmt if early else 'state.run', 'state.run can complete normally without reaching the post-run assertion sent <= ending (a state entered at the limit may consume past it unnoticed)' )
     else:
         res.bad( src, run, 'state.run', 'the post-run assertion sent <= ending is missing (overrun would go unnoticed)' )
     # transition: limited => lookup key None
@@ -241,6 +252,19 @@ def r_repeat( ctx ):
         res.ok( src, dl, 'string repeat resolved relative to the dfa context, default 0' )
     else:
         res.bad( src, dl, 'repeat resolution', 'a data-path repeat must be resolved through self.context( path, repeat )' )
+    # the cycle loop ends only through its own condition: no break / return bound to it
+    escapes = []
+    for n in ast.walk( lp ):
+        if isinstance( n, ( ast.Break, ast.Return )):
+            enc = src.enclosing( n, ( ast.While, ast.For ))
+            if isinstance( n, ast.Return ) or enc is lp:
+                escapes.append( n )
+    if escapes:
+        par = src.parent.get( escapes[0] )
+        res.bad( src, escapes[0], ( 'if %s: ' % norm_text( par.test ) if isinstance( par, ast.If ) else '' ) + norm_text( escapes[0] ),
+                 'the repeat loop is left before all cycles ran: a repeat count must make the sub-grammar run exactly that many times (or fail)' )
+    else:
+        res.ok( src, lp, 'the cycle loop has no break/return of its own' )
     if any( pmatch( s, 'self.reset()' ) for s in lp.body ):
         res.ok( src, lp, 'sub-machine reset to initial at the start of every cycle' )
     else:
